@@ -575,6 +575,7 @@ func (Area) Gen(r *rand.Rand, tier string, emit func(string)) {
 		emit(fmt.Sprintf("stress close %d %d", r.Int63n(1<<30), stressMs))
 		if i < 3 {
 			emit(fmt.Sprintf("stress claim %d %d", r.Int63n(1<<30), stressMs))
+			emit(fmt.Sprintf("stress handover %d %d", r.Int63n(1<<30), stressMs))
 		}
 		count("stress")
 	}
@@ -599,6 +600,35 @@ func (Area) Gen(r *rand.Rand, tier string, emit func(string)) {
 		emit(k + " W0.0,U0.0.1.12,W1.5,U5.1.6.4;C0;" + re + ";" + fin + ";U5.1.7.4 0000000" + "44" + "1" + "1" + "2222222222222" + "44" + "11" + "3333333333")
 		// Close of the NEW watcher parked while a third Watch + update arrive
 		emit(k + " " + setup + ",C0,W0.1,U1.0.2.13;C1;W0.2,U2.0.3.13,L1,L3;" + fin + " 000000000" + "1" + "2222222222" + "11" + "3333333333")
+	}
+	// contested-service family (fix D31; the pattern router runs it too): A owns services 1,2; B lists 2,3 (claims 2);
+	// then A closes / drops 2 / re-lists, B updates / closes, with each of them parked at its yield points while
+	// the other runs, and lookups of the contested service in between and at the end.
+	for _, k := range []string{"S", "P"} {
+		setupAB := "W0.0,U0.0.1.12,W1.1,U1.1.2.23"
+		looks := "L2,L2,L2,L1,L3,L2"
+		// B parked mid-Close (flag set) while A's Close hands service 2 over to B's claim; then B finishes; re-watch
+		emit(k + " " + setupAB + ";C1;C0;" + looks + ",W1.2,U2.1.9.2,L2 00000000" + "1" + "2222" + "33" + "11" + "3333333333")
+		// A parked mid-Close while B closes (drops its claim) and C arrives
+		emit(k + " " + setupAB + ";C0;C1,W2.3,U3.2.9.24;" + looks + " 00000000" + "1" + "222222222" + "33" + "11" + "3333333")
+		// A drops service 2 (update) parked between its phases while B updates / lookups run
+		emit(k + " " + setupAB + ";U0.0.5.1;U1.1.6.23;" + looks + " 00000000" + "11" + "2" + "33" + "1" + "2222" + "3333333")
+		// B's update parked between its phases (claim recorded, holds the table mutex) while A closes
+		emit(k + " " + setupAB + ";U1.1.6.23;C0;" + looks + " 00000000" + "11" + "22" + "33" + "11" + "22" + "3333333")
+		// B drops its claim, A closes: nobody left
+		emit(k + " " + setupAB + ";U1.1.6.3;C0;" + looks + " 00000000" + "111" + "222" + "3333333")
+		// three claimants: order of hand-over; the middle one closes while waiting
+		emit(k + " " + setupAB + ",W2.3,U3.2.7.2;C1;C0;" + looks + ";C3,L2 000000000000" + "111" + "222" + "33" + "44" + "3333333")
+	}
+	// small-scope exhaustive schedules over the hand-over steps (service router): after the set-up (A owns 2, B claims 2)
+	// every schedule prefix over {A closes, B re-submits, lookups, B closes + lookup}, and with A dropping instead of closing
+	nh := 5
+	if thorough {
+		nh = 7
+	}
+	for _, first := range []string{"C0", "U0.0.5.1"} {
+		sc := "S " + first + ";U1.1.3.23;L2,L2;C1,L2;W0.0,U0.0.1.12,W1.1,U1.1.2.23"
+		enumSchedules("44444444", "0123", nh, func(s string) { count("exhaustive-handover"); emit(sc + " " + s) })
 	}
 	for _, k := range []string{"P", "S"} {
 		// the D11 schedule: update passes the closed check and parks, Close runs, update resumes, lookup, re-watch
